@@ -22,6 +22,22 @@ def _split(dom, who, op, c):
         return [(lo, min(hi, c - 1)), (max(lo, c + 1), hi)]
     tr, fa = [], []
     inv = {"Ge": "Lt", "Gt": "Le", "Le": "Gt", "Lt": "Ge", "Eq": "Ne", "Ne": "Eq"}[op]
+    if isinstance(who, tuple) and who[0] == "and":
+        # (x & mask) op c: the true set is periodic in x; enumerate it (domains of at most 2^20 values: bytes, u16 modes, code points)
+        mask = who[1]
+        if sum(hi - lo + 1 for lo, hi in dom) > (1 << 20):
+            raise Unsupported("masked comparison over a domain that is too large")
+        test = {"Lt": lambda v: v < c, "Le": lambda v: v <= c, "Gt": lambda v: v > c, "Ge": lambda v: v >= c, "Eq": lambda v: v == c, "Ne": lambda v: v != c}[op]
+        for lo, hi in dom:
+            run = None
+            for x in range(lo, hi + 1):
+                if test(x & mask):
+                    run = (run[0], x) if run else (x, x)
+                elif run:
+                    tr.append(run); run = None
+            if run:
+                tr.append(run)
+        return tr, _minus(dom, tr)
     for lo, hi in dom:
         if who == "x":
             tr += sat_x(lo, hi)
@@ -74,7 +90,7 @@ def piecewise(fn, is_x_place, lo, hi, max_steps=200000, resolve=None, _depth=0, 
         b, si0, dom, env = work.pop()
         env = dict(env)
         if b in stop and si0 == 0 and not (b == start and steps == 1):
-            r = env.get(observe)
+            r = b if observe == "stop" else env.get(observe)
             for a_, b_ in dom:
                 out.append((a_, b_, r if isinstance(r, int) else None))
             continue
@@ -135,6 +151,12 @@ def piecewise(fn, is_x_place, lo, hi, max_steps=200000, resolve=None, _depth=0, 
                     v = ("xref2",)
                 elif isinstance(pv, tuple) and pv and pv[0] == "range":
                     v = pv
+            elif k == "agg" and rv[1] == "adt" and not rv[4]:
+                v = ("variant", rv[3])
+            elif k == "discr":
+                ev_ = env.get(rv[1][0]) if len(rv[1]) == 1 else None
+                if isinstance(ev_, tuple) and ev_ and ev_[0] == "variant":
+                    v = next((int(d_) for d_, n_ in rv[2].items() if n_ == ev_[1]), None)
             elif k == "un" and rv[1] == "Not":
                 a = val(rv[2])
                 if isinstance(a, int):
@@ -149,8 +171,16 @@ def piecewise(fn, is_x_place, lo, hi, max_steps=200000, resolve=None, _depth=0, 
                         v = ("cmp", a[0], op, c)
                     elif isinstance(c, tuple) and c[0] in ("x", "abs") and isinstance(a, int):
                         v = ("cmp", c[0], _FLIP[op], a)
+                    elif isinstance(a, tuple) and a[0] == "and" and isinstance(c, int):
+                        v = ("cmp", a, op, c)
+                    elif isinstance(c, tuple) and c[0] == "and" and isinstance(a, int):
+                        v = ("cmp", c, _FLIP[op], a)
                     elif isinstance(a, int) and isinstance(c, int):
                         v = int({"Lt": a < c, "Le": a <= c, "Gt": a > c, "Ge": a >= c, "Eq": a == c, "Ne": a != c}[op])
+                elif op == "BitAnd" and ((a == ("x",) and isinstance(c, int)) or (c == ("x",) and isinstance(a, int))):
+                    v = ("and", c if isinstance(c, int) else a)
+                elif op == "BitAnd" and isinstance(a, int) and isinstance(c, int):
+                    v = a & c
                 elif isinstance(a, int) and isinstance(c, int):
                     base = op.replace("WithOverflow", "").replace("Unchecked", "")
                     r = {"Add": a + c, "Sub": a - c, "Mul": a * c}.get(base)
@@ -175,7 +205,7 @@ def piecewise(fn, is_x_place, lo, hi, max_steps=200000, resolve=None, _depth=0, 
                     for a_, b_ in part:
                         out.append((a_, b_, bit))
                 continue
-            if not isinstance(r, int):
+            if not isinstance(r, int) and not (isinstance(r, tuple) and r and r[0] == "variant"):
                 raise Unsupported("non-constant return for x in %s" % (dom[:2],))
             for a_, b_ in dom:
                 out.append((a_, b_, r))
@@ -241,11 +271,14 @@ def piecewise(fn, is_x_place, lo, hi, max_steps=200000, resolve=None, _depth=0, 
                     if part:
                         e2 = dict(env); e2[dest[0]] = bit
                         work.append((tgt, 0, part, e2))
-            elif resolve is not None and _depth < 3 and sum(1 for a in args if a == ("x",)) == 1 and all(a == ("x",) or isinstance(a, int) for a in args) and resolve(nm) is not None:
+            elif resolve is not None and _depth < 3 and sum(1 for a in args if a in (("x",), ("xref",))) == 1 and all(a in (("x",), ("xref",)) or isinstance(a, int) for a in args) and resolve(nm) is not None:
                 g = resolve(nm)
-                k_x = [i for i, a in enumerate(args) if a == ("x",)][0] + 1
+                k_x = [i for i, a in enumerate(args) if a in (("x",), ("xref",))][0] + 1
+                by_ref = args[k_x - 1] == ("xref",)
                 if nm not in sub_cache:
-                    sub_cache[nm] = piecewise(g, lambda p, k_x=k_x: p == [k_x], lo, hi, max_steps, resolve, _depth + 1)
+                    # by reference: x is `*arg` (or the single field of a newtype behind it)
+                    sub_cache[nm] = piecewise(g, (lambda p, k_x=k_x: p == [k_x, "*"] or (len(p) == 3 and p[:2] == [k_x, "*"] and p[2] == ".0")) if by_ref else (lambda p, k_x=k_x: p == [k_x]),
+                                              lo, hi, max_steps, resolve, _depth + 1)
                 for a_, b_, r in sub_cache[nm]:
                     part = [(max(a_, x0), min(b_, x1)) for x0, x1 in dom if max(a_, x0) <= min(b_, x1)]
                     if part:
@@ -259,7 +292,7 @@ def piecewise(fn, is_x_place, lo, hi, max_steps=200000, resolve=None, _depth=0, 
         else:
             raise Unsupported("terminator %s" % k)
     # merge adjacent intervals with equal value
-    out.sort(key=lambda t_: (t_[0], t_[1], -1 if t_[2] is None else t_[2]))
+    out.sort(key=lambda t_: (t_[0], t_[1], str(t_[2])))
     merged = []
     for a, b_, v in out:
         if merged and merged[-1][2] == v and merged[-1][1] + 1 == a:
